@@ -76,6 +76,10 @@ type wCommit struct {
 	ID      int
 	Tree    int
 	Parents []int
+	// C10: the tree's regular files (path -> blob number; nil: the default single file) and the
+	// key that signs the commit object (0: unsigned)
+	Files  map[string]int
+	Signer int
 }
 
 type wWorld struct {
@@ -193,6 +197,7 @@ type builtWorld struct {
 	commits  map[int]githash.Hash
 	commitOf map[string]int
 	trees    map[int]githash.Hash
+	blobs    map[int]githash.Hash
 	entryIDs []githash.Hash // RSL entry id per event
 }
 
@@ -283,6 +288,25 @@ func buildWorldHook(w *wWorld, hook func(i int, b *builtWorld) error) (*builtWor
 	b := &builtWorld{m: newMemStore(), commits: map[int]githash.Hash{}, commitOf: map[string]int{}, trees: map[int]githash.Hash{}}
 	rsl.VerifResetCache()
 	for _, c := range w.Commits {
+		if _, ok := b.trees[c.Tree]; !ok && c.Files != nil {
+			ents := []gitstore.TreeEntry{}
+			for path, num := range c.Files {
+				blob, err := b.m.WriteBlob([]byte(fmt.Sprintf("blob %d\n", num)))
+				if err != nil {
+					return nil, err
+				}
+				if b.blobs == nil {
+					b.blobs = map[int]githash.Hash{}
+				}
+				b.blobs[num] = blob
+				ents = append(ents, gitstore.TreeEntry{Path: path, ID: blob, Kind: gitstore.KindBlob})
+			}
+			t, err := b.m.WriteTree(ents)
+			if err != nil {
+				return nil, err
+			}
+			b.trees[c.Tree] = t
+		}
 		if _, ok := b.trees[c.Tree]; !ok {
 			blob, err := b.m.WriteBlob([]byte(fmt.Sprintf("content of tree %d\n", c.Tree)))
 			if err != nil {
@@ -298,7 +322,11 @@ func buildWorldHook(w *wWorld, hook func(i int, b *builtWorld) error) (*builtWor
 		for _, p := range c.Parents {
 			parents = append(parents, b.commits[p])
 		}
-		id, err := b.m.createCommit(b.trees[c.Tree], parents, fmt.Sprintf("commit %d", c.ID), nil)
+		var ckey []byte
+		if c.Signer != 0 {
+			ckey = poolKeyN(c.Signer).PEM
+		}
+		id, err := b.m.createCommit(b.trees[c.Tree], parents, fmt.Sprintf("commit %d", c.ID), ckey)
 		if err != nil {
 			return nil, err
 		}
